@@ -341,6 +341,11 @@ def check_c17(tier, seed, res, work):
             sub = rng.choice(['', 'sub/', 'a/b/'])
             name = '%s%c%d.cql' % (sub, rng.choice('abz'), i)
             rules.append((name, text))
+        # two rules that read Javadoc tags of the SAME entities, the list-valued accessor first (walk order), a
+        # single-valued one last: each must report what it reports alone
+        rules.append(('00params.cql', b'/**\n * @id doc/params\n * @description params  listed\n * @problem.severity LOW\n */\nFROM method_declaration AS m WHERE len(m.getDoc().GetCommentParam()) >= 0 SELECT m.getDoc().GetCommentParam(), m.getName()\n'))
+        rules.append(('zz_since.cql', b'/**\n * @id doc/since\n * @description since or return given\n * @problem.severity HIGH\n */\nFROM method_declaration AS m WHERE m.getDoc().GetCommentSince() != "" || m.getDoc().GetCommentReturn() != "" || m.getDoc().GetCommentAuthor() != "" SELECT m.getName()\n'))
+        nrules += 2
         rules.append(('notes.txt', b'not a rule'))
         qrun.write_project(rdir, rules)
         # some rules are shared ones LINKED into the ruleset
@@ -516,7 +521,7 @@ def check_c17(tier, seed, res, work):
             stats['sarif_results_checked'] += sum(got.values())
             if got != exp:
                 res.violations.append(dict(replay, what='SARIF results are not the per-rule findings', only_expected=str(list((exp - got).items())[:2]), only_report=str(list((got - exp).items())[:2])))
-            if Counter(m_sarif) != got and all(ord(c) < 128 for t in got for c in str(t[3])):
+            if Counter(m_sarif) != got and all(ord(c) < 128 for t in got for c in str(t[3])) and not any(me.get('infrag') == '0' for me in m_entries):
                 res.tie_broken.append('correspondence (sarif): model %d results, implementation %d; only-model %s only-impl %s' % (len(m_sarif), sum(got.values()), list((Counter(m_sarif) - got).items())[:1], list((got - Counter(m_sarif)).items())[:1]))
         if trial < 2:
             samples.append(dict(rules=[n for n in order], bad=sorted(bad_positions), format=fmt, github_actions=gha))
